@@ -100,6 +100,11 @@ func HarnessC19Recover() {
 			// the usual shape of a recovery function: wrap what was recovered
 			return NewError(CodeDataLoss, &c02Wrapper{prefix: "recovered", err: r.(error)})
 		}
+		if pv == 3 {
+			// the message is the recovery function's, byte for byte - blanks at
+			// its ends included (fmt.Errorf("panic: %v", "") ends in one)
+			return NewError(CodeDataLoss, errors.New("recovered: "))
+		}
 		return NewError(CodeDataLoss, errors.New("recovered"))
 	}
 	c16Log = nil
@@ -258,6 +263,9 @@ func HarnessC19Recover() {
 			check(CodeOf(callErr) == CodeDataLoss, "the client receives the error the recovery function returned")
 			ce, ok := asError(callErr)
 			wantMsg := "recovered"
+			if pv == 3 {
+				wantMsg = "recovered: "
+			}
 			if pv == 6 {
 				wantMsg = "recovered: " + errC19Context.Error()
 			}
